@@ -150,8 +150,26 @@ class C29Monitor(explore.Monitor):
     return {"calls": 0, "raised": 0}
 
   def after(self, st, e, bundle, group, exc):
-    # quiescence: whatever the bundle (or its rollback) left pending is flushed first; this is not
-    # C29's concern (C04 / C05 look at it)
+    # (1) straight after an ordinary bundle - the engine's current ActionGroup is that bundle's,
+    # with its stored / undo actions - the read-only calls must leave every table as it is.  (The
+    # "then a Calculate is silent" clause needs a quiescent document and is checked in (2), after
+    # a settling Calculate whose ActionGroup is empty: the two situations differ in what the
+    # engine's undo checkpoint machinery starts from.)
+    if exc is None and group is not None and group.stored:
+      pre = eng.snapshot(e, private=True)
+      for fn in FUNCTIONS:
+        for label, thunk in calls_for(e, fn):
+          st["calls"] += 1
+          try:
+            thunk()
+          except Exception:
+            st["raised"] += 1
+        d = eng.diff_snapshots(pre, eng.snapshot(e, private=True))
+        if d:
+          return [("C29.snapshot_unchanged", {"function": fn, "diff": d, "when": "right after a bundle",
+                                              "culprit": None})]
+    # (2) quiescence: whatever the bundle (or its rollback) left pending is flushed first; this is
+    # not C29's concern (C04 / C05 look at it)
     for _ in range(2):
       try:
         if not eng.apply(e, [["Calculate"]]).stored: break
